@@ -21,7 +21,17 @@ import DadiVerif.Generated.FileIO
    c14.unpickle <pyval> …                                    -> ok <spectrum> | err reject            (GENERATED)
    c14.modes                                                 -> ok toFileGz toFilePlain fromFileGz fromFilePlain arrTo arrFrom
    c14.meta                                                  -> ok reduceFields unpickleParams reduceFunc copyregArgs fills
-   pyval: `N` | `B0` | `B1` | `A<shape>:<toks>` | `M<bits>` | `S<strs>` | `X<x…>` -/
+   c14.new <data> <mask> <mask_corners> <data_folded> <check_folding> <dtype> <copy> <fill_value> <keep_mask> <shrink> <pop_ids> <extrap_x>
+                                                             -> ok <object> | err reject     (GENERATED `Spectrum.__new__`)
+   c14.newmeta                                               -> ok <params> <name=pyval,…> <numpy masked_array params> <modelled ones>
+   c14.method <mask_corners|unmask_all> <mask bits>          -> ok <mask bits> | err reject  (GENERATED methods)
+   c14.finalize <self mask> <obj mask> <obj fill> <folded|-> <pop_ids|-> <extrap_x|->   -> ok <object>   (GENERATED __array_finalize__)
+   c14.fmtstr <p>                                            -> ok <to_file format> <array_to_file format>   (GENERATED)
+   c14.precision <format>                                    -> ok <p> | err reject
+   c14.iszero <tok>                                          -> ok 0|1
+   pyval: `N` | `B0` | `B1` | `A<shape>:<toks>` | `M<bits>` | `S<strs>` | `X<x…>` | `K` (nomask) | `T<type name>` | `Y<x…>` (str)
+          | `P<shape>;<toks>;<bits>;<0|1>;<labels>;<extrap>` (a Spectrum)
+   object: `<shape> <data toks> <mask bits> <fill pyval> <folded pyval|-> <pop_ids pyval|-> <extrap_x pyval|-> <warnings strs>` -/
 namespace DadiVerif.Driver.FileFormat
 open DadiVerif DadiVerif.Proto DadiVerif.FileFormat
 
@@ -83,7 +93,14 @@ def decSpec (sh d m f l x : String) : Option Spec := do
 def encSpec (fs : Spec) : String :=
   s!"{encShape fs.shape} {encStrs fs.data} {encBits fs.mask} {if fs.folded then "1" else "0"} {encOptStrs fs.popIds} {encOptStr fs.extrapX}"
 
+def encSpecSemi (fs : Spec) : String :=
+  s!"{encShape fs.shape};{encStrs fs.data};{encBits fs.mask};{if fs.folded then "1" else "0"};{encOptStrs fs.popIds};{encOptStr fs.extrapX}"
+
 def encPy : PyVal → String
+  | .nomask => "K"
+  | .ty n => "T" ++ n
+  | .str t => "Y" ++ encStr t
+  | .spec fs => "P" ++ encSpecSemi fs
   | .none => "N"
   | .bool b => if b then "B1" else "B0"
   | .arr sh toks => "A" ++ encShape sh ++ ":" ++ encStrs toks
@@ -103,7 +120,20 @@ def decPy (t : String) : Option PyVal :=
   | 'M' :: r => (decBits (String.ofList r)).map .marr
   | 'S' :: r => (decStrs (String.ofList r)).map .strs
   | 'X' :: r => (decStr (String.ofList r)).map .num
+  | ['K'] => some .nomask
+  | 'T' :: r => some (.ty (String.ofList r))
+  | 'Y' :: r => (decStr (String.ofList r)).map .str
+  | 'P' :: r =>
+    match (String.ofList r).splitOn ";" with
+    | [sh, d, m, f, l, x] => (decSpec sh d m f l x).map .spec
+    | _ => none
   | _ => none
+
+def encOptPy (o : Option PyVal) : String := match o with | none => "-" | some v => encPy v
+def decOptPy (t : String) : Option (Option PyVal) := if t = "-" then some none else (decPy t).map some
+
+def encObj (o : Obj) : String :=
+  s!"{encShape o.shape} {encStrs o.data} {encBits o.mask} {encPy o.fillValue} {encOptPy o.folded} {encOptPy o.popIds} {encOptPy o.extrapX} {encStrs o.warnings}"
 
 def handle (toks : List String) : Option String :=
   match toks with
@@ -170,6 +200,46 @@ def handle (toks : List String) : Option String :=
       match Gen.FileIO.unpickle vals with
       | some fs => some ("ok " ++ encSpec fs)
       | none => some "err reject"
+  | ["c14.new", a1, a2, a3, a4, a5, a6, a7, a8, a9, a10, a11, a12] => do
+      let v ← [a1, a2, a3, a4, a5, a6, a7, a8, a9, a10, a11, a12].mapM decPy
+      match v with
+      | [b1, b2, b3, b4, b5, b6, b7, b8, b9, b10, b11, b12] =>
+        match Gen.FileIO.spectrumNew b1 b2 b3 b4 b5 b6 b7 b8 b9 b10 b11 b12 with
+        | some o => some ("ok " ++ encObj o)
+        | none => some "err reject"
+      | _ => none
+  | ["c14.newmeta"] =>
+      some s!"ok {",".intercalate Gen.FileIO.newParams} {",".intercalate (Gen.FileIO.newDefaults.map fun kv => kv.1 ++ "=" ++ encPy kv.2)} {",".intercalate Gen.FileIO.maParams} {",".intercalate Gen.FileIO.maModelled}"
+  | ["c14.method", name, m] => do
+      let m ← decBits m
+      let o : Obj := { shape := [m.length], data := m.map fun _ => ['0'], mask := m, fillValue := .none, folded := none,
+                       popIds := none, extrapX := none, warnings := [] }
+      let r ← (if name = "mask_corners" then some (Gen.FileIO.maskCornersM o)
+               else if name = "unmask_all" then some (Gen.FileIO.unmaskAllM o) else none)
+      match r with
+      | some o' => some ("ok " ++ encBits o'.mask)
+      | none => some "err reject"
+  | ["c14.finalize", ms, mo, fill, f, p, x] => do
+      let ms ← decBits ms; let mo ← decBits mo; let fill ← decPy fill
+      let f ← decOptPy f; let p ← decOptPy p; let x ← decOptPy x
+      let self : Obj := { shape := [ms.length], data := ms.map fun _ => ['0'], mask := ms, fillValue := .none, folded := none,
+                          popIds := none, extrapX := none, warnings := [] }
+      let obj : Obj := { shape := [mo.length], data := mo.map fun _ => ['0'], mask := mo, fillValue := fill, folded := f,
+                         popIds := p, extrapX := x, warnings := [] }
+      match Gen.FileIO.arrayFinalize self obj with
+      | some o => some ("ok " ++ encObj o)
+      | none => some "err reject"
+  | ["c14.fmtstr", p] => do
+      let p ← p.toNat?
+      some s!"ok {encStr (Gen.FileIO.toFileFmt p)} {encStr (Gen.FileIO.arrayToFileFmt p)}"
+  | ["c14.precision", f] => do
+      let f ← decStr f
+      match precisionOf f with
+      | some p => some s!"ok {p}"
+      | none => some "err reject"
+  | ["c14.iszero", t] => do
+      let t ← decStr t
+      some (if tokIsZero t then "ok 1" else "ok 0")
   | ["c14.modes"] =>
       some ("ok " ++ " ".intercalate ([Gen.FileIO.toFileGzMode, Gen.FileIO.toFilePlainMode, Gen.FileIO.fromFileGzMode,
         Gen.FileIO.fromFilePlainMode, Gen.FileIO.arrayToFileMode, Gen.FileIO.arrayFromFileMode].map String.ofList))
